@@ -63,6 +63,13 @@ Step ==
                           /\ e.len = Cardinality(IterEff(rem, back))
                IN /\ bad' = IF ~okP THEN "contract" ELSE "no"
                   /\ rem' = IterEff(rem, back) /\ tree' = tree
+          [] e.op \in {"iter_nth", "iter_nth_back"} ->      \* Iterator::nth / nth_back with n = e.k
+               LET back == e.op = "iter_nth_back"
+                   okP == /\ e.ret = IterNthRet(rem, e.k, back)
+                          /\ (e.ret # None => e.rv = m[e.ret])
+                          /\ e.len = Cardinality(IterNthEff(rem, e.k, back))
+               IN /\ bad' = IF ~okP THEN "contract" ELSE "no"
+                  /\ rem' = IterNthEff(rem, e.k, back) /\ tree' = tree
   /\ l' = l + 1 /\ r' = r
   /\ (bad' # "no") => PrintT(<<"SPLAYFAIL", bad', Runs[r].id, l>>)
 
